@@ -286,7 +286,21 @@ def transform(t):
     what = t['what']
     e = expr(t['e'])
     if what == 'laplace':
-        return sp.srepr(e(s).sympy)
+        return sp.srepr(e(s, **t.get('kw', {})).sympy)
+    if what in ('zt', 'izt', 'dft', 'idft', 'dtft'):
+        # discrete-time transformers through the public call interface, options passed through
+        from lcapy import n, k, z
+        from lcapy.sym import fsym
+        kw = dict(t.get('kw', {}))
+        if what == 'zt':
+            return sp.srepr(e.ZT(**kw).sympy)
+        if what == 'izt':
+            return sp.srepr(e.IZT(**kw).sympy)
+        if what == 'dft':
+            return sp.srepr(e.DFT(**kw).sympy)
+        if what == 'idft':
+            return sp.srepr(e.IDFT(**kw).sympy)
+        return sp.srepr(e.DTFT(**kw).sympy)
     if what == 'ilt':
         return sp.srepr(e(tt, **t.get('kw', {})).sympy)
     if what == 'fourier':
